@@ -82,7 +82,10 @@ type MComp struct {
 }
 
 type MClaims struct {
-	Prof      Prof
+	Prof Prof
+	// Canon: canonical profile name of the claims implementation judging the
+	// set when it is not the built-in one (extension profiles); "" = Prof.Name().
+	Canon     string
 	Profile   *string
 	ClientID  *int32
 	Lifecycle *uint16
@@ -131,9 +134,17 @@ func (c *MComp) Clone() *MComp {
 	}
 }
 
+// CanonName is the profile name the judging implementation expects.
+func (m *MClaims) CanonName() string {
+	if m.Canon != "" {
+		return m.Canon
+	}
+	return m.Prof.Name()
+}
+
 func (m *MClaims) Clone() *MClaims {
 	n := &MClaims{
-		Prof: m.Prof, Profile: clonePtr(m.Profile), ClientID: clonePtr(m.ClientID),
+		Prof: m.Prof, Canon: m.Canon, Profile: clonePtr(m.Profile), ClientID: clonePtr(m.ClientID),
 		Lifecycle: clonePtr(m.Lifecycle), ImplID: cloneBytesPtr(m.ImplID), BootSeed: cloneBytesPtr(m.BootSeed),
 		CertRef: clonePtr(m.CertRef), CompsNil: m.CompsNil, NoMeas: clonePtr(m.NoMeas),
 		InstID: cloneBytesPtr(m.InstID), VSI: clonePtr(m.VSI),
@@ -262,7 +273,7 @@ func (m *MClaims) Expect(c Claim) (cls ECls, alt ECls) {
 			}
 			return EMissMand, alt
 		}
-		if *m.Profile == m.Prof.Name() {
+		if *m.Profile == m.CanonName() {
 			return EOK, alt
 		}
 		return EProfile, alt
@@ -434,7 +445,7 @@ func renderComp(c *MComp) string {
 func (m *MClaims) ExpectValue(c Claim) string {
 	switch c {
 	case CProfile:
-		return fmt.Sprintf("%q", m.Prof.Name())
+		return fmt.Sprintf("%q", m.CanonName())
 	case CClientID:
 		return fmt.Sprint(*m.ClientID)
 	case CLifecycle:
